@@ -4,6 +4,7 @@ open PdModel.StoreFsm PdModel.Spec
 #print axioms C14_step
 #print axioms inv_reachable
 #print axioms state_moves_only_forward
+#print axioms stored_moves_only_forward
 #print axioms tombstone_refused_at_rpc
 #print axioms bury_only_empty
 #print axioms live_addresses_unique
